@@ -365,4 +365,32 @@ def applyEdit (root : Children) : Edit → Children
   | .mkdir p => insertAt (.dir []) root (splitPath p)
   | .remove p => removeAt root (splitPath p)
 
+/-! ## Call sequences -/
+
+/-- One call on the endpoint (or an edit of the root by another program). -/
+inductive Op
+  | scan
+  | stage (paths : List String) (digests : List Nat) (hint : Nat → Option String)
+  | supply (items : List (String × Nat))
+  | transition (ts : List Change)
+  | edit (e : Edit)
+
+def stepOp (s : St) : Op → St
+  | .scan => (scan s).1
+  | .stage ps ds h => (stage s ps ds h).1
+  | .supply items => supply s items
+  | .transition ts => (transition s ts).1
+  | .edit e => { s with root := applyEdit s.root e }
+
+def runOps (s : St) (ops : List Op) : St := ops.foldl stepOp s
+
+/-- A staging request that gets as far as the scanned-since-last-stage guard. -/
+def Op.reachesStageGuard : Op → Bool
+  | .stage ps ds _ => ps.length == ds.length && ps.length != 0
+  | _ => false
+
+def Op.isTransition : Op → Bool
+  | .transition _ => true
+  | _ => false
+
 end Mutagen.Model.Staging
